@@ -1,18 +1,22 @@
 #!/bin/bash
-# usage: tools/confirm_seeded.sh C04  — in the agent's worktree /tmp/seed/C04 (src change + demo applied):
-# demo must fail with the change and pass without it; then the property's quick check is run against the change in /repo.
+# usage: tools/confirm_seeded.sh C04  — confirms a seeded change in a FRESH scratch worktree of /repo:
+# the demo must pass on the clean tree and fail with the change. (The sub-agent's own worktree is not trusted:
+# `git stash` is shared between worktrees.)
 P=$1
-W=/tmp/seed/$P
-S=$W/SEEDED
-cd $W || exit 2
+S=/tmp/seed/$P/SEEDED
+W=/tmp/confirm/$P
+rm -rf $W; mkdir -p /tmp/confirm
+git -C /repo worktree add -q --detach $W HEAD || exit 2
+cd $W
+export CARGO_TARGET_DIR=/tmp/confirm_target
 demo=$(python3 -c "import json;print(json.load(open('$S/meta.json'))['demo_command'])")
 echo "== demo command: $demo"
-git status --short | grep -v SEEDED | head
-echo "== with change"
-( cd $W && timeout 1500 bash -c "$demo" > $S/demo_with.log 2>&1; echo "rc=$?" ) 
-grep -E "^test result|panicked|FAILED|failed" $S/demo_with.log | head -5
-git apply -R $S/patch.diff || { echo "cannot revert patch"; exit 2; }
+git apply $S/demo.diff || { echo "demo.diff does not apply"; }
 echo "== without change"
-( cd $W && timeout 1500 bash -c "$demo" > $S/demo_without.log 2>&1; echo "rc=$?" )
-grep -E "^test result|panicked|FAILED" $S/demo_without.log | head -5
-git apply $S/patch.diff
+timeout 2400 bash -c "$demo" > $S/demo_without.log 2>&1; echo "rc=$?"
+grep -E "^test result|panicked|FAILED" $S/demo_without.log | head -4
+git apply $S/patch.diff || { echo "patch.diff does not apply on top of demo"; }
+echo "== with change"
+timeout 2400 bash -c "$demo" > $S/demo_with.log 2>&1; echo "rc=$?"
+grep -E "^test result|panicked|FAILED" $S/demo_with.log | head -4
+cd /; git -C /repo worktree remove --force $W
